@@ -182,6 +182,7 @@ type reifyObs struct {
 }
 
 type reifyCase struct {
+	Pol string          `json:"pol"`
 	Ty  string          `json:"ty"`
 	Vs  []string        `json:"vs"`
 	Old rGVal           `json:"old"`
@@ -213,7 +214,7 @@ func runReify(c *reifyCase) (o reifyObs) {
 		return reifyObs{Kind: "panic", Msg: "config: " + err.Error()}
 	}
 	panicked, msg := guard(func() {
-		err = cfg.Unpack(target.Interface())
+		err = cfg.Unpack(target.Interface(), polOption(c.Pol)...)
 	})
 	if panicked {
 		return reifyObs{Kind: "panic", Msg: msg}
